@@ -168,6 +168,7 @@ impl Prop for C08 {
         }
         v.push("calendar:inside-CalType-container".to_string());
         v.push("python-layer:add_months".to_string());
+        v.push("adjusted:Act-with-settlement-enforced".to_string());
         v
     }
     fn min_evaluations(&self, tier: Tier) -> u64 {
@@ -340,8 +341,13 @@ impl Prop for C08 {
                         let z = z0 + rng.range_i(0, z1 - z0);
                         let o = rng.range_i(-30, 30);
                         let r = &kinds[rng.usize(kinds.len())];
-                        let m = MODS[1 + rng.usize(4)];
+                        // all five modifiers: 'actual' leaves the calendar-arithmetic date alone, with or without
+                        // settlement enforcement, on calendars with and without settlement calendars
+                        let m = MODS[rng.usize(5)];
                         let settlement = rng.bool();
+                        if matches!(m, Modifier::Act) && settlement {
+                            ctx.class("adjusted:Act-with-settlement-enforced");
+                        }
                         let (un, _) = expected_unadjusted(z, o, r);
                         if un < z0 - 1500 || un > z1 + 1500 {
                             continue;
